@@ -13,7 +13,8 @@ EXTENDS Integers, Sequences, FiniteSets, TLC
 
 Versions == {"v1.0", "v1.1", "rc2", "artifact"}     \* PackManifest 1.0 / 1.1, Pack image (rc2), Pack artifact
 AtClasses == {"empty", "valid", "invalid"}          \* artifactType
-CfgClasses == {"none", "valid", "invalid", "emptyjson"}   \* ConfigDescriptor: absent / media type class
+CfgClasses == {"none", "valid", "validempty", "invalid", "emptyjson"}   \* ConfigDescriptor: absent / media type class
+                                   \* validempty: a valid custom media type whose content is {} (same digest as the empty JSON blob)
 LayerClasses == {"nil", "empty", "one", "many"}
 AnnClasses == {"none", "nocreated", "created", "badcreated"}
 Targets == {"memory", "prefilled", "oci", "pusheronly"}
